@@ -39,6 +39,13 @@ pub struct GraphSpec {
     /// directive would continue it)
     #[serde(default)]
     pub dash_deps: bool,
+    /// file i (only if it has no edges) is a completely empty source: its output is empty
+    #[serde(default)]
+    pub empty: Vec<bool>,
+    /// file i ends with a verbatim include of its own source text (`include f.txt.txtpp` names
+    /// a .txtpp file: included as it is, never a dependency)
+    #[serde(default)]
+    pub raw_self: Vec<bool>,
 }
 
 pub fn dir_name(d: u8) -> &'static str {
@@ -133,6 +140,16 @@ impl GraphSpec {
             }
             s.push_str(&format!("head{i}\n"));
             let mine: Vec<&(usize, usize, EdgeForm)> = self.edges.iter().filter(|e| e.0 == i).collect();
+            if mine.is_empty() && self.empty.get(i).copied().unwrap_or(false) {
+                p.put(&self.src_path(i), String::new());
+                continue;
+            }
+            let raw_self = if self.raw_self.get(i).copied().unwrap_or(false) {
+                let me = self.src_path(i);
+                format!("TXTPP#include {}\n", me.rsplit('/').next().unwrap_or(&me))
+            } else {
+                String::new()
+            };
             if !self.rich {
                 let mut cats = String::new();
                 let split_last = self.eof_dep && mine.len() >= 2;
@@ -167,6 +184,7 @@ impl GraphSpec {
                     s.push_str(&format!("-TXTPP#run echo solo{i} >> {MARK}/log\n"));
                 }
                 s.push_str(&format!("tail{i}\n"));
+                s.push_str(&raw_self);
                 p.put(&self.src_path(i), s);
                 continue;
             }
@@ -191,6 +209,7 @@ impl GraphSpec {
                 s.push_str(&format!("-TXTPP#run echo solo{i} >> {MARK}/log\n"));
             }
             s.push_str(&format!("tail{i}\n"));
+            s.push_str(&raw_self);
             p.put(&self.src_path(i), s);
         }
         p
@@ -220,6 +239,8 @@ pub fn graph_from_mask(n: usize, mask: u64, forms: u64, pre: u64, dirs: &[u8]) -
         eof_dep: false,
         alt_name: (0..n).map(|i| pre >> (10 + 2 * i) & 3 == 3).collect(),
         dash_deps: false,
+        empty: (0..n).map(|i| pre >> (24 + 2 * i) & 3 == 3).collect(),
+        raw_self: (0..n).map(|i| pre >> (34 + 2 * i) & 7 == 7).collect(),
     }
 }
 
@@ -276,5 +297,8 @@ pub fn gen_graph(c: &mut Choices, min_n: usize, max_n: usize, acyclic: bool, sub
     let rich = c.chance(1, 2);
     let eof_dep = c.chance(1, 3);
     let alt_name = (0..n).map(|_| c.chance(1, 3)).collect();
-    GraphSpec { n, edges, pre_marker, dirs, rich, no_solo: false, eof_dep, alt_name, dash_deps: c.chance(1, 2) }
+    let dash_deps = c.chance(1, 2);
+    let empty = (0..n).map(|_| c.chance(1, 5)).collect();
+    let raw_self = (0..n).map(|_| c.chance(1, 6)).collect();
+    GraphSpec { n, edges, pre_marker, dirs, rich, no_solo: false, eof_dep, alt_name, dash_deps, empty, raw_self }
 }
